@@ -108,12 +108,17 @@ class ExprMixin:
         new = MapT.fresh(f'upd!{self.run.nfresh}')
         self.run.nfresh += 1
         k = z3.Const('!uk', Val)
-        self.run.assume(z3.ForAll([k], z3.And(
+        body = z3.And(
             new.has(k) == z3.Or(m.has(k), sm.has(k)),
             z3.Implies(sm.has(k), new.get(k) == sm.get(k)),
             z3.Implies(z3.Not(sm.has(k)), new.get(k) == m.get(k)),
             z3.Implies(m.has(k), z3.Select(new.pos, k) == z3.Select(m.pos, k)),
-            z3.Select(new.pos, k) >= -1, z3.Select(new.pos, k) < new.len)))
+            z3.Select(new.pos, k) >= -1, z3.Select(new.pos, k) < new.len)
+        try:
+            ax = z3.ForAll([k], body, patterns=[z3.Select(new.pos, k), z3.Select(new.val, k)])
+        except z3.Z3Exception:
+            ax = z3.ForAll([k], body)
+        self.run.assume(ax)
         self.run.assume(z3.And(new.len >= m.len, new.len >= sm.len, new.len <= m.len + sm.len))
         return new
 
@@ -445,6 +450,13 @@ class ExprMixin:
 
     # ---- comprehensions (concrete shape only; symbolic ones need `any`/`all` special forms)
     def ev_ListComp(self, n, fr):
+        if self.contract.opts.get('opaque_text_comprehensions') and len(n.generators) > 1:
+            # text splitting whose result is only handed to compile(): a list of unknown strings
+            r = self.run.alloc('list')
+            self.heap.put_l(r, ListT.fresh(f'lines!{self.run.nfresh}'))
+            self.run.nfresh += 1
+            self.run.assume(self.heap.l(r).len >= 1)
+            return SV(sym.mk_ref(r), hint=frozenset(['list']))
         items = self.comp_items(n, fr)
         r = self.run.alloc('list')
         l = ListT.empty()
